@@ -63,10 +63,11 @@ type Interp struct {
 }
 
 type anySym struct {
-	Tag  string
-	Name string
-	Sort Sort
-	Kind string
+	Tag    string
+	Name   string
+	Sort   Sort
+	Kind   string
+	Lo, Hi *big.Int
 }
 
 func (it *Interp) newCell(v Value, name string) *Cell {
@@ -387,6 +388,9 @@ func (it *Interp) callFunction(fn *ssa.Function, args []Value, bindings []Value,
 	if fn.Blocks == nil {
 		if fn.Pkg != nil {
 			fn.Pkg.Build()
+		}
+		if o := fn.Origin(); o != nil && o.Pkg != nil && fn.Blocks == nil {
+			o.Pkg.Build()
 		}
 		if fn.Blocks == nil {
 			panic(unsupported("call of function without body: " + name))
@@ -1683,6 +1687,11 @@ func (it *Interp) builtin(name string, args []Value, site ssa.CallInstruction) V
 		return nil
 	case "print", "println":
 		return nil
+	case "ssa:wrapnilchk":
+		if p, ok := args[0].(*Ptr); ok && p == nil {
+			panic(&GoPanic{Msg: "value method called using nil pointer"})
+		}
+		return args[0]
 	case "recover":
 		if it.recoverFr != nil && it.recoverFr.panicking != nil {
 			p := it.recoverFr.panicking
